@@ -102,6 +102,19 @@ def firstOk (t : Table) : List (Nat × Nat) → Nat → String
 def distinctSize (t : Table) : Nat :=
   4 + 8 * t.length + ((t.map (·.2)).eraseDups.map List.length).sum
 
+/-- the large format 12 family: `n` isolated entries `base + step·i ↦ (g0 + mul·i) mod 65536`, `step ≥ 2` -/
+def bigMap (fs : List (String × String)) : Option (Cmap12.KV × Nat × Nat) := do
+  let n ← (getField fs "n").bind String.toNat?
+  let base ← (getField fs "base").bind String.toNat?
+  let step ← (getField fs "step").bind String.toNat?
+  let g0 ← (getField fs "g0").bind String.toNat?
+  let mul ← (getField fs "mul").bind String.toNat?
+  let lang ← (getField fs "lang").bind String.toNat?
+  pure ((List.range n).map (fun i => (base + step * i, (g0 + mul * i) % 65536)), n, lang)
+
+def byteDigest (b : Bytes) : Nat :=
+  (b.foldl (fun (st : Nat × Nat) x => (st.1 + 1, (st.2 + (st.1 + 1) * (x.toNat + 1)) % 18446744073709551616)) (0, 0)).2
+
 def prefixes : List String := ["cmapx."]
 
 def handle (op : String) (fs : List (String × String)) : String :=
@@ -115,8 +128,27 @@ def handle (op : String) (fs : List (String × String)) : String :=
   else if op == "cmapx.spec12" then
     match (getField fs "bytes").bind fromHex, (getField fs "codes").bind parseNatList with
     | some b, some codes =>
-      let gs := specGroups b
+      let gs := specGroupsLen b   -- the independent decoder honours the length field
       lookups (findGroup gs) codes ++ (if sdFrom 0 gs then ";sd=1" else ";sd=0")
+    | _, _ => "bad-case"
+  else if op == "cmapx.big12enc" then
+    match bigMap fs with
+    | some (kv, _, lang) =>
+      match Cmap12.encode kv lang with
+      | some b => s!"len={b.length};hdr={toHex (b.take 16)};h={byteDigest b}"
+      | none => "panic"
+    | none => "bad-case"
+  else if op == "cmapx.big12hdr" then
+    -- property predicate: the header the specification prescribes for `n` sequential map groups
+    match bigMap fs with
+    | some (_, n, lang) => s!"format=12;reserved=0;length={16 + 12 * n};language={lang};numGroups={n}"
+    | none => "bad-case"
+  else if op == "cmapx.big12rt" then
+    -- property predicate: through Table.Encode / Decode / Get and GetBest the map is read back
+    match bigMap fs, (getField fs "codes").bind parseNatList with
+    | some (kv, _, _), some codes =>
+      let l := lookups (lookupKV kv) codes
+      s!"get310=ok:f12:{l};get04=ok:f12:{l};best=ok:f12:{l}"
     | _, _ => "bad-case"
   else if op == "cmapx.dec12" then
     match (getField fs "bytes").bind fromHex with
